@@ -31,35 +31,35 @@ type Spec struct {
 
 // Found is one violation found by a child, already minimised.
 type Found struct {
-	Sig      string   `json:"sig"`
-	V        Violation `json:"violation"`
-	Seed     uint64   `json:"seed"`
-	Run      int      `json:"run"`
-	Sim      string   `json:"sim"`
-	Tier     string   `json:"tier"`
-	Race     bool     `json:"race,omitempty"`
-	OrigLen  int      `json:"orig_tape_len"`
-	Tape     []uint32 `json:"tape"`
-	Log      []string `json:"log"`
-	LogFP    string   `json:"log_fp"`
-	Count    int      `json:"count"`
-	Shrinks  int      `json:"shrink_runs"`
+	Sig     string    `json:"sig"`
+	V       Violation `json:"violation"`
+	Seed    uint64    `json:"seed"`
+	Run     int       `json:"run"`
+	Sim     string    `json:"sim"`
+	Tier    string    `json:"tier"`
+	Race    bool      `json:"race,omitempty"`
+	OrigLen int       `json:"orig_tape_len"`
+	Tape    []uint32  `json:"tape"`
+	Log     []string  `json:"log"`
+	LogFP   string    `json:"log_fp"`
+	Count   int       `json:"count"`
+	Shrinks int       `json:"shrink_runs"`
 }
 
 // Out is what a child writes when it finishes.
 type Out struct {
-	Sim       string         `json:"sim"`
-	Runs      int            `json:"runs"`
-	Events    int64          `json:"events"`
-	NonTriv   int            `json:"nontrivial_runs"`
-	Faults    map[string]int `json:"faults"`
-	Probes    map[string]int `json:"probes"`
-	SimTimeNs int64          `json:"sim_time_ns"`
-	Samples   [][]string     `json:"samples"`
-	Found     []Found        `json:"found"`
-	Bug       string         `json:"bug,omitempty"`
-	WallMs    int64          `json:"wall_ms"`
-	TapeVals  int64          `json:"tape_values"`
+	Sim       string           `json:"sim"`
+	Runs      int              `json:"runs"`
+	Events    int64            `json:"events"`
+	NonTriv   int              `json:"nontrivial_runs"`
+	Faults    map[string]int   `json:"faults"`
+	Probes    map[string]int   `json:"probes"`
+	SimTimeNs int64            `json:"sim_time_ns"`
+	Samples   [][]string       `json:"samples"`
+	Found     []Found          `json:"found"`
+	Bug       string           `json:"bug,omitempty"`
+	WallMs    int64            `json:"wall_ms"`
+	TapeVals  int64            `json:"tape_values"`
 	Extra     map[string]int64 `json:"extra,omitempty"`
 }
 
